@@ -33,6 +33,12 @@ Print Assumptions C11_aliases.
 Theorem C11_unknown_rejected_partial : with_table unknown_ok = true.
 Proof. exact unknown_b. Qed.
 
+(* for EVERY identifier: it is accepted only through a key of the table, and every key is accepted *)
+Theorem C11_accepted_only_through_table : forall T id s, get_space_group T id = Some s -> exists k, lookup T k = Some s.
+Proof. exact get_sound. Qed.
+Theorem C11_every_key_accepted : forall T id s, lookup T id = Some s -> get_space_group T id = Some s.
+Proof. exact get_direct. Qed.
+
 (* operation lists: for EVERY list, a hit means the list is a rearrangement of that setting's rendered operations *)
 Theorem C11_find_sound : forall ops s b, find_space_group all_settings ops = Some (s, b) ->
   In s all_settings /\ Permutation (map op_key ops) (map op_key (sg_ops s)) /\ (b = true <-> map op_key (sg_ops s) = map op_key ops).
